@@ -104,6 +104,8 @@ class HyWorld:
                 st.insert(0, acc)
                 acc = acc * d
             v.attrs["strides"] = tuple(st)
+            v.attrs["size"] = acc // itemsize if itemsize else 0
+            v.attrs["ndim"] = len(shape)
             I.effects.append(Effect("to_nplike", args=(pos, vals["dtype"], tuple(shape)), kwargs={}, buf=b))
 
             def transpose(perm=None):
